@@ -206,6 +206,10 @@ func odtAtoms(b *strings.Builder, ch Child, cnt *counter, o Origin) {
 			b.WriteString(`<text:line-break/>`)
 		case "s": // 6.1.3
 			b.WriteString(`<text:s/>`)
+		case "eh": // the header line written in the body
+			b.WriteString(TokText(HdrTok))
+		case "ef":
+			b.WriteString(TokText(FtrTok))
 		default:
 			panic("wpw: atom " + a + " is not in the ODT alphabet")
 		}
